@@ -174,7 +174,8 @@ Proof.
 Qed.
 
 (* ---- msgstr[i] ---- *)
-Definition mx_cur (i : N) (ws : str) (c : chunk) : str := k_msgstr_br ++ [48 + i; 93] ++ ws ++ quoted c.
+Definition idx_digits (i : N) : str := if i <? 10 then [48 + i] else [48 + i / 10; 48 + i mod 10].   (* decimal, i < 100 *)
+Definition mx_cur (i : N) (ws : str) (c : chunk) : str := k_msgstr_br ++ idx_digits i ++ [93] ++ ws ++ quoted c.
 Definition toks_mx (obs : bool) (ws : str) (i : N) (s : sstring) : list lexed :=
   match s with [] => [] | c :: r => LLine obs false (AProc Ymx (mx_cur i ws c)) :: map (cont_tok obs false) r end.
 
@@ -189,14 +190,15 @@ Lemma process_mx obs i ws c p : i < 10 -> ~ In 34 ws -> chunk_ok (o_dec O) c ->
   Some (with_state (with_index (with_cur p (set_plural (dict_set i (chunk_value c) (e_plural (p_cur p))) (p_cur p))) i) Smx).
 Proof.
   intros Hi Hws Hc Hn. unfold process. rewrite Hn. unfold handle.
-  assert (H7 : nth_error (mx_cur i ws c) 7 = Some (48 + i)) by reflexivity. rewrite H7.
+  assert (Hd : idx_digits i = [48 + i]) by (unfold idx_digits; replace (i <? 10) with true by lia; reflexivity).
+  assert (H7 : nth_error (mx_cur i ws c) 7 = Some (48 + i)) by (unfold mx_cur; rewrite Hd; reflexivity). rewrite H7.
   assert (Hint : py_int_char O (48 + i) = Some i).
   { unfold py_int_char, is_ascii_digit, between. replace (48 + i <? 128) with true by lia.
     replace ((48 <=? 48 + i) && (48 + i <=? 57)) with true by lia. f_equal. lia. }
   rewrite Hint.
   set (pre := k_msgstr_br ++ [48 + i; 93] ++ ws).
   assert (Hcur : mx_cur i ws c = pre ++ 34 :: (chunk_text c ++ [34])).
-  { unfold mx_cur, quoted, pre. rewrite <- !app_assoc. reflexivity. }
+  { unfold mx_cur, quoted, pre. rewrite Hd. rewrite <- !app_assoc. reflexivity. }
   assert (Hpre : ~ In 34 pre).
   { unfold pre. rewrite !in_app_iff. intros [H|[H|H]]; [| |contradiction].
     - unfold k_msgstr_br, k_msgstr in H. cbn in H. repeat (destruct H as [H|H]; [discriminate H|]). destruct H.
@@ -580,3 +582,150 @@ Proof.
 Qed.
 
 End Machine.
+
+(* ---------------------------------------------------------------- what was built is the catalog *)
+Definition to_entry (c : centry) : entry :=
+  mkEntry (c_msgctxt c) (c_msgid c) (c_msgid_plural c) (c_msgstr c) (c_plural c) (c_obsolete c) (c_comment c) (c_tcomment c)
+          (c_refs c) (c_flags c) (c_prev_ctxt c) (c_prev_id c) (c_prev_plural c).
+
+(* what the tool yields: the previous-msgid annotations of an obsolete entry are dropped *)
+Definition tool_view (c : centry) : centry :=
+  if c_obsolete c then
+    mkCentry (c_msgctxt c) (c_msgid c) (c_msgid_plural c) (c_msgstr c) (c_plural c) (c_obsolete c) (c_comment c) (c_tcomment c)
+             (c_refs c) (c_flags c) None None None
+  else c.
+
+Definition extr_of (cl : cline) : list str := match cl with CExtr _ t => [t] | _ => [] end.
+Definition trans_of (cl : cline) : list str := match cl with CTrans t => [t] | _ => [] end.
+Definition refs_of (cl : cline) : list (str * str) := match cl with CRefs _ refs => map snd refs | _ => [] end.
+Definition flags_of (cl : cline) : list str := match cl with CFlags _ items => map (fun x => snd (fst x)) items | _ => [] end.
+
+Lemma fold_pre : forall pre en,
+  fold_left (fun en cl => apply_cline cl en) pre en =
+  mkEntry (e_msgctxt en) (e_msgid en) (e_msgid_plural en) (e_msgstr en) (e_plural en) (e_obsolete en)
+    (fold_left join_line (flat_map extr_of pre) (e_comment en))
+    (fold_left join_line (flat_map trans_of pre) (e_tcomment en))
+    (e_occ en ++ flat_map refs_of pre) (e_flags en ++ flat_map flags_of pre)
+    (last_prev QCtxt pre (e_prev_ctxt en)) (last_prev QId pre (e_prev_id en)) (last_prev QPlural pre (e_prev_plural en)).
+Proof.
+  induction pre as [|cl pre IH]; intros en.
+  - cbn. rewrite !app_nil_r. destruct en; reflexivity.
+  - cbn [fold_left]. rewrite IH. destruct en. destruct cl as [t | sep t | sep refs | sep items | k s]; cbn.
+    + reflexivity.
+    + reflexivity.
+    + now rewrite <- app_assoc.
+    + unfold flag_of. now rewrite <- app_assoc.
+    + destruct k; reflexivity.
+Qed.
+
+Lemma flat_map_filter_prev {A} (f : cline -> list A) pre : (forall k s, f (CPrev k s) = []) ->
+  flat_map f (filter (fun cl => negb (is_prev cl)) pre) = flat_map f pre.
+Proof. intros Hf. induction pre as [|cl pre IH]; [reflexivity|]. cbn [filter flat_map].
+  destruct cl; cbn [is_prev negb flat_map]; rewrite ?IH; try reflexivity. now rewrite Hf. Qed.
+
+Lemma last_prev_filter k pre acc : last_prev k (filter (fun cl => negb (is_prev cl)) pre) acc = acc.
+Proof. revert acc. induction pre as [|cl pre IH]; intros acc; [reflexivity|]. cbn [filter].
+  destruct cl; cbn [is_prev negb last_prev]; apply IH. Qed.
+
+Lemma build_value e : build e = to_entry (tool_view (entry_value e)).
+Proof.
+  unfold build, build_msg, eff_pre, tool_view, entry_value. cbn [c_obsolete].
+  destruct e as [pre obs ctxt sid pl strs]. cbn [s_pre s_obsolete s_ctxt s_id s_plural s_strs].
+  destruct obs.
+  - rewrite fold_pre. cbn [new_entry e_msgctxt e_msgid e_msgid_plural e_msgstr e_plural e_obsolete e_comment e_tcomment e_occ e_flags e_prev_ctxt e_prev_id e_prev_plural].
+    rewrite !last_prev_filter. rewrite !flat_map_filter_prev by reflexivity. cbn [app].
+    unfold to_entry. cbn.
+    destruct ctxt, pl; cbn; try reflexivity; destruct strs; reflexivity.
+  - rewrite fold_pre. cbn [new_entry e_msgctxt e_msgid e_msgid_plural e_msgstr e_plural e_obsolete e_comment e_tcomment e_occ e_flags e_prev_ctxt e_prev_id e_prev_plural].
+    cbn [app]. unfold to_entry. cbn.
+    destruct ctxt, pl; cbn; try reflexivity; destruct strs; reflexivity.
+Qed.
+
+(* ---------------------------------------------------------------- blank lines and #~| lines anywhere *)
+Inductive ext : list lexed -> list lexed -> Prop :=
+| ext_nil : ext [] []
+| ext_blank l l' : ext l l' -> ext l (LBlank :: l')
+| ext_prev_obsolete l l' : ext l l' -> l <> [] -> ext l (LPrevObsolete :: l')    (* not after the last line *)
+| ext_keep x l l' : ext l l' -> ext (x :: l) (x :: l').
+
+Definition is_lline (x : lexed) : Prop := match x with LLine _ _ _ => True | _ => False end.
+
+Lemma machine_ext O : forall l l', ext l l' -> Forall is_lline l ->
+  forall n lst p r, machine O l n lst p = Ok r ->
+  forall n2 lst2, (l = [] -> lst2 = lst) -> machine O l' n2 lst2 p = Ok r.
+Proof.
+  induction 1 as [| l l' Hext IH | l l' Hext IH Hne | x l l' Hext IH]; intros Hall n lst p r Hm n2 lst2 Hl.
+  - cbn in *. now rewrite (Hl eq_refl).
+  - cbn [machine]. now apply (IH Hall n lst p r Hm).
+  - cbn [machine]. apply (IH Hall n lst p r Hm). intros E. congruence.
+  - inversion Hall as [|? ? Hx Hall']; subst. destruct x as [| |obs h a]; try contradiction.
+    cbn [machine] in *. destruct a as [|y cur|d].
+    + apply (IH Hall' _ _ _ _ Hm). reflexivity.
+    + destruct (process O y obs cur p) as [p'|]; [|discriminate]. apply (IH Hall' _ _ _ _ Hm). reflexivity.
+    + discriminate.
+Qed.
+
+Lemma run_machine_ext O l l' f : ext l l' -> Forall is_lline l -> run_machine O l = Ok f -> run_machine O l' = Ok f.
+Proof.
+  intros Hext Hall. unfold run_machine. destruct (machine O l 0 None init_pstate) as [r| |] eqn:Em; cbn [obind]; try discriminate.
+  intros Hf. rewrite (machine_ext O l l' Hext Hall _ _ _ _ Em 0 None (fun _ => eq_refl)). exact Hf.
+Qed.
+
+(* ---------------------------------------------------------------- the theorem *)
+Lemma toks_sstring_lline obs h y s : Forall is_lline (toks_sstring obs h y s).
+Proof. destruct s as [|c r]; [constructor|]. cbn. constructor; [exact I|]. apply Forall_forall. intros x Hx.
+  apply in_map_iff in Hx. destruct Hx as (? & <- & _). exact I. Qed.
+
+Lemma toks_catalog_lline ws c : Forall is_lline (toks_catalog ws c).
+Proof.
+  unfold toks_catalog. apply Forall_app. split.
+  - apply Forall_forall. intros x Hx. apply in_map_iff in Hx. destruct Hx as (? & <- & _). exact I.
+  - apply Forall_forall. intros x Hx. apply in_flat_map in Hx. destruct Hx as (e & _ & Hx).
+    revert x Hx. apply Forall_forall. unfold toks_entry.
+    apply Forall_app; split; [|apply Forall_app; split; [|apply Forall_app; split]].
+    + apply Forall_forall. intros x Hx. apply in_flat_map in Hx. destruct Hx as (cl & _ & Hx). revert x Hx. apply Forall_forall.
+      destruct cl; cbn [toks_cline]; try (constructor; [exact I|constructor]). apply toks_sstring_lline.
+    + destruct (s_ctxt e); [apply toks_sstring_lline|constructor].
+    + apply toks_sstring_lline.
+    + unfold toks_strs. destruct (s_plural e).
+      * apply Forall_app. split; [apply toks_sstring_lline|]. generalize 0. induction (s_strs e) as [|s1 l IH]; intros i; cbn; [constructor|].
+        apply Forall_app. split; [|apply IH]. destruct s1 as [|c0 r]; cbn; [constructor|]. constructor; [exact I|].
+        apply Forall_forall. intros x Hx. apply in_map_iff in Hx. destruct Hx as (? & <- & _). exact I.
+      * apply Forall_forall. intros x Hx. apply in_flat_map in Hx. destruct Hx as (s1 & _ & Hx). revert x Hx. apply Forall_forall, toks_sstring_lline.
+Qed.
+
+Theorem machine_roundtrip O ws c l' :
+  ascii_compatible (o_dec O) -> ~ In 34 ws -> scatalog_ok (o_dec O) c -> nplurals_le_10 c ->
+  ext (toks_catalog ws c) l' ->
+  run_machine O l' = Ok (mkPo (fst (catalog_value c)) (map (fun e => to_entry (tool_view e)) (snd (catalog_value c))) false).
+Proof.
+  intros Hdec Hws (Hh & Hes & Hfirst) Hn Hext.
+  apply (run_machine_ext O _ _ _ Hext (toks_catalog_lline ws c)).
+  rewrite (machine_catalog O Hdec ws c Hws Hes Hn).
+  - unfold catalog_value. cbn [fst snd]. f_equal. f_equal. rewrite map_map. apply map_ext. intros e. apply build_value.
+  - destruct (sc_entries c) as [|e es]; [exact I|]. destruct Hfirst as [H1 H2]. unfold eff_pre.
+    destruct (s_obsolete e); [|exact H1].
+    assert (E : filter (fun cl => negb (is_prev cl)) (s_pre e) = filter (fun cl => match cl with CPrev _ _ => false | _ => true end) (s_pre e)).
+    { apply filter_ext. intros []; reflexivity. }
+    now rewrite E.
+Qed.
+
+Lemma tool_view_id c : no_obsolete_prev c -> forall e, In e (sc_entries c) -> tool_view (entry_value e) = entry_value e.
+Proof.
+  intros Hno e Hin. unfold no_obsolete_prev in Hno. rewrite Forall_forall in Hno. specialize (Hno e Hin).
+  unfold tool_view, entry_value. cbn [c_obsolete]. destruct (s_obsolete e) eqn:Eo; [|reflexivity].
+  specialize (Hno eq_refl).
+  assert (G : forall k acc, last_prev k (s_pre e) acc = acc).
+  { intros k. induction (s_pre e) as [|cl pre IH]; intros acc; [reflexivity|]. inversion Hno as [|? ? Hcl Hpre]; subst.
+    destruct cl; cbn [last_prev]; try (apply IH; assumption). contradiction. }
+  now rewrite !G.
+Qed.
+
+Theorem machine_roundtrip_full O ws c l' :
+  ascii_compatible (o_dec O) -> ~ In 34 ws -> scatalog_ok (o_dec O) c -> nplurals_le_10 c -> no_obsolete_prev c ->
+  ext (toks_catalog ws c) l' ->
+  run_machine O l' = Ok (mkPo (fst (catalog_value c)) (map to_entry (snd (catalog_value c))) false).
+Proof.
+  intros Hdec Hws Hok Hn Hno Hext. rewrite (machine_roundtrip O ws c l' Hdec Hws Hok Hn Hext). f_equal. f_equal.
+  unfold catalog_value. cbn [snd]. rewrite !map_map. apply map_ext_in. intros e He. now rewrite (tool_view_id c Hno e He).
+Qed.
